@@ -186,7 +186,7 @@ def run(replay=None):
     with core.Lock('coq'):
         rep, tlog = core.translate()
     for u in rep['untranslatable']:
-        if u['group'] == 'Packs':
+        if u['group'] in ('Packs', 'Linear', 'Algebra'):
             chk.obligation_broken('translation of ' + u['name'], u['why'])
     chk.cov['pack_layers_in_source'] = rep.get('packs')
     chk.prove('Properties_C02.v')
